@@ -22,6 +22,8 @@ EXTRA = {   # additional checks expected to notice a mutant
     'C18-int-hash-and-mask': ['C13'],
     'C14-retry-removes-staged-file': ['C08'],
     'C15-rlock-pid-frozen': [],
+    'C15-hash-uses-python-hash': ['C13'],
+    'C15-fanout-pickle-drops-shards': ['C18'],
     'C02-delitem-lookup-outside': ['C05'],
     'C10-push-culls-in-second-txn': ['C14'],
     'C20-pop-lookup-outside': ['C05'],
